@@ -1,10 +1,19 @@
 #!/bin/bash
-# tools/seed_table.sh: every kept seeded change against the check of the property it breaks; one line each (seed, rc, first failing obligation)
+# tools/seed_table.sh [seed ...]: every kept seeded change (or the given ones) against the check of the property it breaks;
+# one line each, and seeded/<id>/meta.json gets "caught_by" (first failing obligations), "check_rc" and "replayed_natively".
 cd "$(dirname "$0")/.."
-for sd in seeded/*/; do
-  sd=${sd%/}
+seeds="$@"; [ -z "$seeds" ] && seeds=$(ls -d seeded/*/ | xargs -n1 basename)
+for n in $seeds; do
+  sd=seeded/$n
   out=$(tools/seed.sh $sd 2>&1)
-  rc=$(echo "$out" | grep -o "rc=[0-9]*" | head -1)
-  ob=$(echo "$out" | grep -o "obligation=[^ |]*" | head -2 | tr '\n' ' ')
-  echo "$(basename $sd) $rc $ob"
+  rc=$(echo "$out" | grep -o "rc=[0-9]*" | head -1 | cut -d= -f2)
+  ob=$(echo "$out" | grep -o "obligation=[^ |]*" | head -2 | sed 's/obligation=//' | tr '\n' ' ')
+  nf=$(echo "$out" | grep -c "no-failing-input-found")
+  echo "$n rc=$rc $ob"
+  python3 - "$sd" "$rc" "$nf" "$ob" <<'PY'
+import json,sys
+p=sys.argv[1]+'/meta.json'; m=json.load(open(p))
+m['check_rc']=int(sys.argv[2] or -1); m['caught_by']=sys.argv[4].split(); m['replayed_natively']=sys.argv[3]=='0' and sys.argv[2]=='1'
+json.dump(m,open(p,'w'),indent=1)
+PY
 done
